@@ -11,6 +11,13 @@ CHECKS = {
    text="Every grid instance with <=3 cells per axis (9 classes, uniform/irregular spacing, radial origin 0/offset) is enumerated and on each the identity is decided for all fields and coefficient fields by evaluating it on the full basis (every unit face field x every unit cell field incl. ghost cells); TVD identities over all {0,1,2}-valued line fields x limiters. Exhaustive within the stated bounds, no sampling.",
    note="Assumes bilinearity of the operators (checked by C17b) so that the basis decides all fields; grids larger than the bound are not explored (3-point stencils: all first/interior/last roles occur for N<=3).",
    ref="DESIGN.md 4/C05"),
+
+ "C13": dict(
+   engine="D-tables",
+   technique="complete finite table (16 limiters x r-alphabet covering every region of every piecewise-rational formula) against exact-rational closed forms; exhaustive enumeration of all {0..3}-valued line fields for TVD totality",
+   text="All 16 names are evaluated on an r-alphabet containing every breakpoint/zero of the published formulas, their floating-point neighbours, region midpoints, a dense dyadic grid over [-1000,1000] and +-10^k (|k|<=100), and compared with the published closed forms in exact rational arithmetic; TVD bounds, psi(1)=1, clipping zero, elementwise shapes, SUPERBEE fallback; the TVD correction is evaluated for every field over {0,1,2,3} on lines of N+2 cells on all 9 classes x 16 limiters x 3 velocity patterns. Complete within the alphabet; the statement for all reals rests on the stated region-cover assumption.",
+   note="Finite alphabet instead of all reals (region-cover assumption recorded in the evidence); reference formulas transcribed from the Wikipedia table the library cites.",
+   ref="DESIGN.md 4/C13"),
 }
 NOT_YET = {}
 
@@ -42,6 +49,7 @@ def main():
                   "source_commits": [], "add_only": True},
         "engines": [
             {"name": "A-opcheck", "path": "fvmc/opkit.py", "serves_properties": ["C01", "C05", "C06", "C11", "C17"], "kind_free_text": "basis-exhaustive operator algebra on every bounded grid instance"},
+            {"name": "D-tables", "path": "fvmc/checks", "serves_properties": ["C10", "C13", "C16"], "kind_free_text": "complete finite tables against closed-form references"},
             {"name": "harness", "path": "fvmc/harness.py", "serves_properties": props, "kind_free_text": "deterministic case enumeration, parallel execution, known-findings matching, replay + evidence"},
         ],
         "checks": checks,
